@@ -11,7 +11,7 @@ from __future__ import annotations
 import ast
 
 from ..cfg import cfg_of
-from ..flow import flow_of, path_of
+from ..flow import deref, flow_of, path_of
 from ..loader import FUNC, AnalysisError, dotted, last_name, loc, short, walk_local, enclosing_stmt
 from ..util import ASE, LAMMPS, REPEX, SETUP, TIS, TURTLE, is_self_attr, kwarg, last_key
 from ..variants import B, K
@@ -768,7 +768,55 @@ def r1111(ctx):
             ctx.bad(rid, c, f"the trajectory name handed to _propagate_from has no process-wide running number (it depends on {inst or 'no counter at all'}): two engine objects used by one job in the same worker directory - the one-step propagations of a QuanTIS swap on engine0 and engine1 - produce the same file name when they have propagated equally often; the second run appends to the first run's file and its frames are recorded as frames 0, 1 of that file, i.e. the other engine's configurations", construct="propagate: trajectory name without process-wide counter")
 
 
+def r1116(ctx):
+    """The high-acceptance test of the zero swap compares the weight of the *new* upper path with
+    that of the *old* one: high_acc_swap(paths, ...) forms (weights after the exchange) / (weights
+    before) from paths[0] and paths[1], so at the zero-swap call site paths[0] is the path generated
+    by this move and paths[1] the path the job was handed (picked[...]["traj"]). Exchanged, the
+    acceptance probability is the inverse ratio."""
+    rid = "R-11.16"
+    n = 0
+    for fname in ("retis_swap_zero", "quantis_swap_zero"):
+        if not ctx.tree.has_func(TIS, fname):
+            continue
+        f = ctx.tree.func(TIS, fname)
+        fl = flow_of(f)
+        for c in [x for x in walk_local(f) if isinstance(x, ast.Call) and last_name(x) == "high_acc_swap" and x.args]:
+            lst = c.args[0]
+            at = fl.cfg.node_of(c)
+            if isinstance(lst, ast.Name):
+                lst, at2 = deref(fl, lst, at)
+            if not (isinstance(lst, (ast.List, ast.Tuple)) and len(lst.elts) == 2):
+                raise AnalysisError(f"R-11.16: the paths handed to high_acc_swap in {fname} are not a two-element list (cannot decide)")
+            n += 1
+
+            def handed_in(e):
+                """does the value come from the job's input paths (picked[k]["traj"])?"""
+                seen, work = set(), [(e, at)]
+                while work:
+                    x, xat = work.pop()
+                    if isinstance(x, ast.Subscript) and isinstance(x.slice, ast.Constant) and x.slice.value == "traj" and "picked" in ast.unparse(x.value):
+                        return True
+                    if isinstance(x, ast.Name):  # plain aliases only: a path *built from* an input path is a new path
+                        for d, sfx in fl.rd(x.id, xat):
+                            if not sfx and id(d) not in seen and isinstance(d.value, ast.AST) and d.kind == "assign":
+                                seen.add(id(d))
+                                work.append((d.value, d.at))
+                return False
+
+            new_is_old, old_is_old = handed_in(lst.elts[0]), handed_in(lst.elts[1])
+            if not new_is_old and old_is_old:
+                ctx.ok(rid, c, f"{fname}: high_acc_swap receives [path generated by the move, path the job was handed]")
+            else:
+                ctx.bad(rid, c, f"{fname} hands high_acc_swap `{short(lst, 40)}`: paths[0] must be the path generated by this move and paths[1] the old path the job was handed (picked[...]['traj']); exchanged, the swap is accepted with probability w(old)/w(new) instead of w(new)/w(old) - swaps that must be rejected pass, a new path with weight 0 is always accepted",
+                        construct=f"{fname}: high_acc_swap({short(lst, 40)}, ...)")
+    if n == 0:
+        raise AnalysisError("R-11.16: no call of high_acc_swap in the zero-swap functions")
+
+
 def run(ctx):
+    ctx.rule("R-11.16", "the high-acceptance test of a zero swap is w(new)/w(old): at the call site paths[0] is the path generated by the move, paths[1] the path the job was handed", floor=1)
+    ctx.attempt(r1116, ctx)
     ctx.rule("R-11.15", "the high-acceptance rule of a zero swap is evaluated on weights computed from the paths at hand: high_acc_swap computes all four weights (each path in each ensemble) with compute_weight - a cached Path.weight does not survive copy / store / reverse (shared with C09 R-9.17)", floor=4)
     from . import c09 as _c09o
     from .shared import RuleProxy as _RP11o
@@ -813,6 +861,8 @@ def run(ctx):
 
 
 VARIANTS = [
+    B("c11-high-acceptance-paths-exchanged", "infretis/core/tis.py", "                [path1, path_old1],\n", "                [path_old1, path1],\n", "R-11.16", control=True, why="seeded C11_p"),
+    K("c11-keep-high-acceptance-paths-in-a-local", "infretis/core/tis.py", "            accept, status = high_acc_swap(\n                [path1, path_old1],\n", "            new_and_old = [path1, path_old1]\n            accept, status = high_acc_swap(\n                new_and_old,\n"),
     B("c11-old-weight-from-the-path-attribute", "infretis/core/tis.py", "    c2_old = compute_weight(paths[1], intf1, ens_moves[1])", "    c2_old = paths[1].weight", "R-11.15", control=True, why="seeded C11_o"),
     B("c11-ase-energy-per-md-step", ASE, "            if (i) % (self.subcycles) == 0:\n                ekin.append(atoms.get_kinetic_energy())\n                vpot.append(self.calc.results[\"energy\"])\n", "            ekin.append(atoms.get_kinetic_energy())\n            vpot.append(energy)\n            if (i) % (self.subcycles) == 0:\n", "R-11.14", control=True, why="seeded C11_n"),
     B("c11-turtle-budget-without-subcycles", TURTLE, "steps=path.maxlen * self.subcycles,", "steps=path.maxlen,", "R-11.13", control=True, why="seeded C11_m"),
